@@ -680,7 +680,8 @@ class NetworkGraph(AbstractBaseIR):
                 if len(target_shape) < 1 or (len(target_shape) == 1 and target_shape[0] == 1):
                     buffer_eqs.append(f"{var}_buffered{buffer_id} = {var_delayed}")
                 else:
-                    buffer_eqs.append(f"index({var}_buffered{buffer_id}, {sidx}) = index({var_delayed}, {sidx})")
+                    # slot i of the buffered variable belongs to the i-th (source element, delay) pair
+                    buffer_eqs.append(f"index({var}_buffered{buffer_id}, {i}) = index({var_delayed}, {sidx})")
 
         # add buffer equations to node operator
         op_info = node_ir[op]
